@@ -477,6 +477,11 @@ class WorldA:
             c.excluded = "bound:too-many-layers"
             self.tr.count(f"excluded:{c.excluded}")
             return {"status": "excluded"}
+        if opr == "differentiate" and len(scs[0].layers) * max(1, len(scs[0].scope)) > MAX_LAYERS:
+            # the derivative circuit has one block per variable: same bound as for products
+            c.excluded = "bound:too-many-layers"
+            self.tr.count(f"excluded:{c.excluded}")
+            return {"status": "excluded"}
         try:
             if via == "pipeline" and opr in ("integrate", "multiply", "conjugate",
                                              "differentiate", "concatenate"):
